@@ -225,6 +225,9 @@ func applyFS(fs hackpadfs.FS, op Op) (res Res) {
 		res.Err = hackpadfs.Chmod(fs, op.P, hackpadfs.FileMode(op.Perm))
 	case "chown":
 		res.Err = hackpadfs.Chown(fs, op.P, os.Getuid(), os.Getgid())
+	case "chownkeep":
+		// -1, -1: "leave both as they are" -- nothing to change, but the name is judged all the same
+		res.Err = hackpadfs.Chown(fs, op.P, -1, -1)
 	case "chownids":
 		// two different ids (the process's own ones leave nothing to see, and equal ones hide which is which)
 		res.Err = hackpadfs.Chown(fs, op.P, 1234, 5678)
@@ -343,6 +346,8 @@ func ApplyOS(root string, op Op) (res Res) {
 		res.Err = os.Chmod(p, os.FileMode(op.Perm))
 	case "chown":
 		res.Err = os.Chown(p, os.Getuid(), os.Getgid())
+	case "chownkeep":
+		res.Err = os.Chown(p, -1, -1)
 	case "chownids":
 		res.Err = os.Chown(p, 1234, 5678)
 	case "chtimes":
